@@ -62,6 +62,7 @@ func checkC02(c *core.Ctx) {
 	r2 := c.Rule("R2.2", "T", "the input bytes are never written by decode code")
 	r3 := c.Rule("R2.3", "T", "read-only accessors write nothing reachable from their receiver or arguments")
 	r4 := c.Rule("R2.4", "T", "no ambient nondeterminism on decode / read-only paths")
+	appendIntoInput(c, c.Rule("R2.7", "T", "no append in decode code has as destination a slice of the packet bytes held in a field (its spare capacity is the rest of the packet)"))
 	r6 := c.Rule("R2.6", "T", "memory taken from a sync.Pool on the decode path is not handed back while a decoded value still refers to it")
 	{
 		roots := p.Roots()
@@ -206,42 +207,13 @@ func checkC02(c *core.Ctx) {
 	}
 
 	// ---- R2.2 (one report per direct write site; the shortest call path is shown)
-	best := map[ssa.Instruction]*effect.Write{}
+	inputNeverWritten(c, r2, eff)
 	depth := func(w *effect.Write) int {
 		n := 0
 		for x := w; x != nil; x = x.Origin {
 			n++
 		}
 		return n
-	}
-	for _, d := range roots.Dec {
-		s := eff.Sum[d.Fn]
-		if s == nil {
-			continue
-		}
-		idx := -1
-		for i, pa := range d.Fn.Params {
-			if pa == d.Data {
-				idx = i
-			}
-		}
-		bad := false
-		for _, w := range s.Writes {
-			if w.Root.Kind == effect.Param && w.Root.Index == idx {
-				bad = true
-				at := w.Direct().At
-				if o, ok := best[at]; !ok || depth(w) < depth(o) {
-					best[at] = w
-				}
-			}
-		}
-		if !bad {
-			r2.OK(core.FnKey(d.Fn)+"/input-untouched", p.Pos(d.Fn.Pos()), "")
-		}
-	}
-	for at, w := range best {
-		d := w.Direct()
-		r2.Violate(core.FnKey(d.Fn)+"/writes-input:"+d.Kind, p.InstrPos(at), "decode code writes into its input bytes: "+writeDesc(p, w)+" (under NoCopy this is the caller's buffer; a second decode of the same bytes differs)", nil)
 	}
 
 	// ---- R2.3 (one report per direct write site, shown with its shortest call path)
@@ -396,4 +368,48 @@ func initOnly(p *core.Prog, fn *ssa.Function, depth int) bool {
 		}
 	}
 	return true
+}
+
+// inputNeverWritten (R2.2 = R4.6): no write effect of a decode root lands in
+// memory rooted at its data parameter.
+func inputNeverWritten(c *core.Ctx, r2 *core.Rule, eff *effect.Analysis) {
+	p := c.P
+	roots := p.Roots()
+	best := map[ssa.Instruction]*effect.Write{}
+	depth := func(w *effect.Write) int {
+		n := 0
+		for x := w; x != nil; x = x.Origin {
+			n++
+		}
+		return n
+	}
+	for _, d := range roots.Dec {
+		s := eff.Sum[d.Fn]
+		if s == nil {
+			continue
+		}
+		idx := -1
+		for i, pa := range d.Fn.Params {
+			if pa == d.Data {
+				idx = i
+			}
+		}
+		bad := false
+		for _, w := range s.Writes {
+			if w.Root.Kind == effect.Param && w.Root.Index == idx {
+				bad = true
+				at := w.Direct().At
+				if o, ok := best[at]; !ok || depth(w) < depth(o) {
+					best[at] = w
+				}
+			}
+		}
+		if !bad {
+			r2.OK(core.FnKey(d.Fn)+"/input-untouched", p.Pos(d.Fn.Pos()), "")
+		}
+	}
+	for at, w := range best {
+		d := w.Direct()
+		r2.Violate(core.FnKey(d.Fn)+"/writes-input:"+d.Kind, p.InstrPos(at), "decode code writes into its input bytes: "+writeDesc(p, w)+" (under NoCopy this is the caller's buffer; a second decode of the same bytes differs)", nil)
+	}
 }
